@@ -278,6 +278,12 @@ def run(ctx):
             for iface, ns in (("wsgi", wsgi), ("asgi", asgi)):
                 for kind in ("Files", "Pages"):
                     apps[(form, iface, kind)] = (abs_dir, getattr(ns, kind)(**kw))
+        # the same relative directory string, given by another application object from another working directory: another tree
+        os.chdir(pkg)
+        for iface, ns in (("wsgi", wsgi), ("asgi", asgi)):
+            for kind in ("Files", "Pages"):
+                apps[("relative-other-cwd", iface, kind)] = (os.path.join(pkg, "static"), getattr(ns, kind)(directory="static"))
+        os.chdir(root)
         os.chdir(os.path.join(root, "static2"))  # relative directories must have been resolved at construction
         # ---- own-path sweep
         for (form, iface, kind), (abs_dir, app) in apps.items():
@@ -402,8 +408,11 @@ def replay(ctx, case):
         ns = wsgi if case["iface"] == "wsgi" else asgi
         form = case.get("directory_form", "absolute")
         kw = {"absolute": dict(directory=served), "absolute+handle_404": dict(directory=served), "relative": dict(directory="static"), "relative-dot": dict(directory="./static/../static/"),
-              "package": dict(directory="static", package="pkgc07"), "relative-tilde": dict(directory="~")}[form]
-        abs_dir = os.path.join(pkg, "static") if form == "package" else os.path.join(root, "~") if form == "relative-tilde" else served
+              "package": dict(directory="static", package="pkgc07"), "relative-tilde": dict(directory="~"), "relative-other-cwd": dict(directory="static")}[form]
+        abs_dir = os.path.join(pkg, "static") if form in ("package", "relative-other-cwd") else os.path.join(root, "~") if form == "relative-tilde" else served
+        if form == "relative-other-cwd":
+            getattr(ns, case["app"])(directory="static")  # (the first application with this string was built in the sandbox root)
+            os.chdir(pkg)
         if form == "relative-tilde":
             make_tree(os.path.join(root, "~"), TREE)
             make_special(os.path.join(root, "~"))
